@@ -127,3 +127,20 @@ def _model(spec, model):
     back = pgp.isotherm_from_json(pgp.isotherm_to_json(iso))
     diffs = rtgen.compare(iso, back, 'json')
     return {'confirmed': bool(diffs), 'observed': diffs}
+
+
+@replayer('c07.codec')
+def _codec(spec, model):
+    from pygaps.utilities.string_utilities import _to_string, cast_string
+    bad = []
+    for v in list(range(-5, 6)) + [0.5, 1e-7, True, False, 'plain text', 'a-b', 'é']:
+        r = cast_string(_to_string(v))
+        if r != v or (isinstance(v, (bool, str)) and type(r) is not type(v)):
+            bad.append((v, r))
+    return {'confirmed': bool(bad), 'observed': bad[:5]}
+
+
+@replayer('c07.format')
+def _format(spec, model):
+    bad = [r for r in roundtrips(spec['fmt'], 0) if not r['ok']]
+    return {'confirmed': bool(bad), 'observed': [(b['name'], b['detail']) for b in bad[:3]]}
